@@ -3,7 +3,7 @@
    Re-exported by the C01 (totality), C08 (print/parse round trip) and C09 (layout, token limit)
    property files. *)
 From GV Require Import Base.Prelude Lang.Lexer Lang.Ast Lang.Parser Lang.Unparse Lang.Wf
-  Lang.ParserProps Lang.UnparseProps.
+  Lang.ParserProps Lang.UnparseProps Lang.WfProps.
 
 (* ---- (a) totality / fuel sufficiency ---------------------------------------------------- *)
 
@@ -66,6 +66,30 @@ Proof.
 Qed.
 Print Assumptions parser_unparse_roundtrip_limited.
 
+(* Every tree an entry point returns is well formed: the hypothesis of the round trip is exactly
+   "x is a parser output shape". *)
+Theorem parser_output_wf : forall e o ts x c,
+  parse_entry e o ts = Ok (x, c) ->
+  wf_ast e (exp_fragment_arguments o) (exp_directives_on_directive_definitions o) x.
+Proof. exact parse_entry_wf. Qed.
+Print Assumptions parser_output_wf.
+
+(* Hence: whatever parses (with or without token limit, any flags) re-parses from its own
+   token-level unparse, in any layout, to the identical tree. *)
+Theorem parser_reparse_identity : forall e o ts x c ts' v,
+  parse_entry e o ts = Ok (x, c) ->
+  map sig ts' = tokens_of x ++ [(K_EOF, v)] ->
+  parse_entry e (with_max o None) ts' = Ok (x, length (tokens_of x)).
+Proof.
+  intros e o ts x c ts' v H E.
+  apply (parse_entry_roundtrip e (with_max o None) ts' x v eq_refl); [|exact E].
+  exact (parse_entry_wf e o ts x c H).
+Qed.
+Print Assumptions parser_reparse_identity.
+
+(* the unparse never has more tokens than the parser counted is NOT claimed (`query {a}` has 4
+   tokens, its unparse `{a}` 3); what holds is that the re-parse counts the tokens of the unparse *)
+
 (* ---- (c) token limit ----------------------------------------------------------------------- *)
 
 (* max_tokens = n accepts exactly the inputs the unlimited parser accepts with at most n tokens,
@@ -120,6 +144,35 @@ Theorem parser_error_position : forall e o ts p,
             p = match skipn i ts with t :: _ => tstart t | [] => O end.
 Proof. exact error_index_spec. Qed.
 Print Assumptions parser_error_position.
+
+(* ---- source text ---------------------------------------------------------------------------- *)
+
+(* for a source that lexes, parsing the text is parsing the significant tokens of Lexer.lex *)
+Theorem parser_text_is_tokens : forall e o s ts, e <> ECoordinate -> lex s = Ok ts ->
+  parse_text e o s = parse_entry e o (significant ts).
+Proof. exact parse_text_lex. Qed.
+Print Assumptions parser_text_is_tokens.
+
+(* two sources whose significant tokens agree in kind and value (any rewrite of the ignored
+   material) parse to the same tree with the same token count, or are both rejected *)
+Theorem parser_text_layout_independent : forall e o s1 s2 ts1 ts2,
+  e <> ECoordinate -> lex s1 = Ok ts1 -> lex s2 = Ok ts2 ->
+  map sig (significant ts1) = map sig (significant ts2) ->
+  (forall d c, parse_text e o s1 = Ok (d, c) <-> parse_text e o s2 = Ok (d, c)) /\
+  ((exists p, parse_text e o s1 = SyntaxErr p) <-> (exists p, parse_text e o s2 = SyntaxErr p)).
+Proof.
+  intros e o s1 s2 ts1 ts2 He H1 H2 E.
+  rewrite (parse_text_lex e o s1 ts1 He H1), (parse_text_lex e o s2 ts2 He H2).
+  apply parse_entry_layout. exact E.
+Qed.
+Print Assumptions parser_text_layout_independent.
+
+(* a source that does not lex is rejected by every entry point (at the lexical error or at an
+   earlier parse error), never accepted *)
+Theorem parser_unlexable_rejected : forall e o s q, e <> ECoordinate -> lex s = SyntaxErr q ->
+  exists p, parse_text e o s = SyntaxErr p.
+Proof. exact parse_text_unlexable. Qed.
+Print Assumptions parser_unlexable_rejected.
 
 (* ---- non-vacuity ---------------------------------------------------------------------------- *)
 (* `{ a }` *)
